@@ -7,6 +7,7 @@ import Emg3dVerif.Drv.C01
 import Emg3dVerif.Drv.C13
 import Emg3dVerif.Drv.C12
 import Emg3dVerif.Drv.C11
+import Emg3dVerif.Drv.C15
 open Emg
 
 def handle (ws : List String) : String :=
@@ -23,6 +24,7 @@ def handle (ws : List String) : String :=
       else if w == "survey" || w == "misfit" then Drv13.handle ws
       else if w == "sim" then Drv12.handle ws
       else if w == "pmap" || w == "fname" || w == "slots" then Drv11.handle ws
+      else if w == "volavg" || w == "vaw" then Drv15.handle ws
       else none
     r.getD "bad-op"
 
